@@ -54,6 +54,9 @@ fn one_program(cx: &mut Ctx, i: u64) {
     // program: bind every witness and probe it against the primary value (holes)
     let mut stmts = vec![];
     let mut g = prober(cx, false);
+    // partial inspection: components of tuples and arrays are skipped with this probability, so
+    // that a witness value is pruned in the middle (uninspected parts next to inspected ones)
+    g.probe_skip_pct = [0, 30, 60][(i % 3) as usize];
     let inspected: Vec<bool> = ws.iter().map(|_| g.rng.chance(4, 5)).collect();
     for (k, (n, t)) in ws.iter().enumerate() {
         stmts.push(let_(&format!("x{k}"), t.clone(), Expr::Witness(n.clone())));
